@@ -731,6 +731,26 @@ def run(root, cfg, log, repo="/repo"):
         else:
             lines.append(f"{t['kind']} {name}")
     write_if_changed(os.path.join(work, "grammar.txt"), "\n".join(lines) + "\n")
+    # the same for the REFERENCE grammar (frozen DSL, independent reader): what C04's oracle expects of a conforming
+    # reader, whatever the code under test says today (field names / position flags, which the DSL view does not
+    # carry, are taken from the shipped table where the type exists)
+    refv = grammar_view(ref)
+    rlines = []
+    for name in sorted(refv):
+        t = refv[name]
+        sh = shipped.get(name, {})
+        if t["kind"] == "block":
+            fl = sh.get("writer", {}).get("fields", []) if sh.get("kind") == "block" else []
+            if len(fl) >= len(t["items"]):
+                rlines.append(f"fields {name} " + ",".join(str(x) for x in fl[:len(t['items'])]))
+        if t["kind"] == "enum":
+            rlines.append(f"enum {name} " + " ".join(f"{i['tag']}:{i['vlo']}:{i['vhi']}" for i in t["items"]))
+        elif t["kind"] == "block":
+            arms = ",".join(f"{a['tag']}:{a['ty']}:{int(a['block'])}:{int(a['repeat'])}:{int(a['required'])}:{a['vlo']}:{a['vhi']}" for a in (t["tagged"] or []))
+            rlines.append(f"block {name} {int(t['is_block'])} items={','.join(item_txt(i) for i in t['items']) or '-'} tagged={arms or '-'} pos={sh.get('pos', 0) if sh.get('kind') == 'block' else 0}")
+        else:
+            rlines.append(f"{t['kind']} {name}")
+    write_if_changed(os.path.join(work, "grammar_ref.txt"), "\n".join(rlines) + "\n")
     notes.append(f"tables regenerated: {len(shipped)} shipped types, {len(fresh)} fresh types, {len(ref)} reference types, {len(sym.names)} symbols; "
                  f"{sum(1 for k in set(ev_s) | set(ev_f) if ev_s.get(k) != ev_f.get(k))} of {len(ev_s)} functions differ at event level")
     for n in notes:
